@@ -148,9 +148,16 @@ class _PackedBoolArray:
         if (newsize + self._start_index) % 8 != 0:
             newsize_data += 1
 
-        self._stop_index = newsize + self._start_index
+        try:
+            self._data.resize(newsize_data, refcheck=refcheck)
+        except ValueError:
+            # The data buffer does not own its memory (e.g. it was read from a
+            # file), so it cannot be resized in place.
+            new_data = np.zeros(newsize_data, dtype=np.uint8)
+            new_data[0: len(self._data)] = self._data
+            self._data = new_data
 
-        self._data.resize(newsize_data, refcheck=refcheck)
+        self._stop_index = newsize + self._start_index
 
     def sum(self, shape=None, axis=None):
         if shape is None:
